@@ -85,6 +85,8 @@ var emptyXmlNamespaces = make([]XmlNamespace, 0)
 type xmlParser struct {
 	xmlReader  *xml.Decoder
 	depth      int
+	nextTok    xml.Token // read ahead while merging character data
+	nextErr    error
 	namespaces []XmlNamespace
 	nsPos      int
 	attrs      []XmlAttribute
@@ -110,7 +112,12 @@ func (x *xmlParser) Pull() (node.Node, bool, error) {
 	x.attrPos = 0
 	x.namespaces = emptyXmlNamespaces
 	x.nsPos = 0
-	tok, err := x.xmlReader.Token()
+	tok, err := x.nextTok, x.nextErr
+	x.nextTok, x.nextErr = nil, nil
+
+	if tok == nil && err == nil {
+		tok, err = x.xmlReader.Token()
+	}
 
 	if err != nil {
 		return nil, false, err
@@ -126,13 +133,33 @@ func (x *xmlParser) Pull() (node.Node, bool, error) {
 			local: n.Name.Local,
 		}, false, nil
 	case xml.CharData:
-		if x.depth == 0 && len(bytes.Trim(n, " \t\r\n")) == 0 {
+		// Adjacent character data (text, CDATA sections, references) forms
+		// one text node.
+		value := append([]byte{}, n...)
+
+		for {
+			x.nextTok, x.nextErr = x.xmlReader.Token()
+			next, ok := x.nextTok.(xml.CharData)
+
+			if !ok {
+				x.nextTok = xml.CopyToken(x.nextTok)
+				break
+			}
+
+			value = append(value, next...)
+		}
+
+		if len(value) == 0 {
+			return x.Pull()
+		}
+
+		if x.depth == 0 && len(bytes.Trim(value, " \t\r\n")) == 0 {
 			// white space between the top-level constructs is not character data
 			return x.Pull()
 		}
 
 		return XmlCharData{
-			value: (string)(n),
+			value: string(value),
 		}, false, nil
 	case xml.Comment:
 		return XmlComment{
